@@ -52,6 +52,14 @@ def rec_class(real_cls, make_trace, log):
     return Rec
 
 
+def orig(mod, name):
+    """the repository's own attribute `name` of module `mod`, even after an earlier path replaced it by a recorder"""
+    store = mod.__dict__.setdefault("__wiring_orig__", {})
+    if name not in store:
+        store[name] = getattr(mod, name)
+    return store[name]
+
+
 def rec_fn(real_fn, result, log, name):
     def f(*a, **k):
         b = _bind(real_fn, a, k)
@@ -146,7 +154,7 @@ def run(c, col):
 
                 return T()
 
-            mod.DenovoMCMC = rec_class(E.load("mchap.assemble.mcmc").DenovoMCMC, make_trace, log)
+            mod.DenovoMCMC = rec_class(orig(E.load("mchap.assemble.mcmc"), "DenovoMCMC"), make_trace, log)
             mod.minimum_error_correction = lambda calls, haps: rnp.zeros(1)
             locus = _Locus()
         elif prog_name == "call":
@@ -171,7 +179,7 @@ def run(c, col):
                 tr.burn = burn
                 return tr
 
-            mod.CallingMCMC = rec_class(cc.CallingMCMC, make_trace, log)
+            mod.CallingMCMC = rec_class(orig(cc, "CallingMCMC"), make_trace, log)
             mod.minimum_error_correction = lambda calls, haps: rnp.zeros(1)
             locus = _Locus()
         elif prog_name.startswith("call-exact"):
@@ -207,9 +215,9 @@ def run(c, col):
                 g[-1] = 1
                 return (g, 0.0, gpm.get(s, 0.5), 0.9, rnp.full(3, 1 / 3), rnp.full(3, 0.5))
 
-            mod.genotype_likelihoods = rec_fn(ex.genotype_likelihoods, r_llks, log, "genotype_likelihoods")
-            mod.genotype_posteriors = rec_fn(ex.genotype_posteriors, r_post, log, "genotype_posteriors")
-            mod.posterior_mode = rec_fn(ex.posterior_mode, r_mode, log, "posterior_mode")
+            mod.genotype_likelihoods = rec_fn(orig(ex, "genotype_likelihoods"), r_llks, log, "genotype_likelihoods")
+            mod.genotype_posteriors = rec_fn(orig(ex, "genotype_posteriors"), r_post, log, "genotype_posteriors")
+            mod.posterior_mode = rec_fn(orig(ex, "posterior_mode"), r_mode, log, "posterior_mode")
             locus = _Locus()
         else:
             mod = E.load("mchap.application.call_pedigree")
@@ -237,7 +245,7 @@ def run(c, col):
 
                 return PT()
 
-            mod.PedigreeCallingMCMC = rec_class(pcl.PedigreeCallingMCMC, make_trace, log)
+            mod.PedigreeCallingMCMC = rec_class(orig(pcl, "PedigreeCallingMCMC"), make_trace, log)
             locus = _Locus()
 
         mod.qual_of_prob = lambda p: 0  # Phred scaling (log10) is formatting, not wiring
@@ -407,7 +415,7 @@ CLASSES = ["denovo", "calling-gibbs", "calling-mh", "pedigree-gibbs", "pedigree-
 
 def _np_seed_shim(mod, log):
     """mod.np with random.seed recorded (every other attribute is the module's own numpy / facade)"""
-    base = mod.np
+    base = orig(mod, "np")
 
     class R:
         @staticmethod
@@ -449,7 +457,7 @@ def run_class(c, col):
                 n_het = b["reads"].shape[1]
                 return rnp.zeros((1, b["steps"], 3, n_het), dtype=rnp.int8), rnp.zeros((1, b["steps"]))
 
-            real_hom, real_asm = mc._homozygosity_probabilities, mc._denovo_assembler
+            real_hom, real_asm = orig(mc, "_homozygosity_probabilities"), orig(mc, "_denovo_assembler")
             mc._homozygosity_probabilities = rec_fn(real_hom, r_hom, log, "_homozygosity_probabilities")
             mc._denovo_assembler = rec_fn(real_asm, r_asm, log, "_denovo_assembler")
             mc._read_mean_dist = lambda r: rnp.full((r.shape[1], 3), 1 / 3)
@@ -466,7 +474,7 @@ def run_class(c, col):
             haps = rnp.array([[0, 0], [0, 1], [1, 1]], dtype=rnp.int8)
             freqs = rnp.array([0.5, 0.25, 0.25])
             init = rnp.array([0, 1, 2], dtype=rnp.int8)
-            real_s, real_g = cc.mcmc_sampler, cc.greedy_caller
+            real_s, real_g = orig(cc, "mcmc_sampler"), orig(cc, "greedy_caller")
             cc.mcmc_sampler = rec_fn(real_s, lambda b: (rnp.zeros((b["n_steps"], 3), dtype=rnp.int8), rnp.zeros(b["n_steps"])), log, "mcmc_sampler")
             cc.greedy_caller = rec_fn(real_g, lambda b: init, log, "greedy_caller")
             cc.seed_numba = lambda s: log.append(("seed_numba", s))
@@ -482,7 +490,7 @@ def run_class(c, col):
         scounts = rnp.array([[1, 2], [3, 0], [4, 5]])
         kw = dict(sample_ploidy=rnp.array([2, 4, 3]), sample_parents=rnp.array([[-1, -1], [-1, -1], [0, 1]]), gamete_tau=rnp.array([[1, 1], [2, 2], [1, 2]]),
                   gamete_lambda=rnp.array([[0.0, 0.0], [0.125, 0.0], [0.0, 0.25]]), gamete_error=rnp.array([[0.01, 0.02], [0.03, 0.04], [0.05, 0.06]]))
-        real_s, real_g = pc.mcmc_sampler, pc.greedy_caller
+        real_s, real_g = orig(pc, "mcmc_sampler"), orig(pc, "greedy_caller")
         pc.mcmc_sampler = rec_fn(real_s, lambda b: rnp.zeros((b["n_steps"], 3, 4), dtype=rnp.int16), log, "mcmc_sampler")
         pc.greedy_caller = rec_fn(real_g, lambda b: rnp.zeros(int(b["ploidy"]), dtype=rnp.int8), log, "greedy_caller")
         pc.seed_numba = lambda s: log.append(("seed_numba", s))
@@ -639,6 +647,210 @@ def replay_real(v, driver):
             for k, val in snap.items():
                 if vars(mod).get(k) is not val:
                     setattr(mod, k, val)
+            vars(mod).pop("__wiring_orig__", None)
     if col.fails:
         return True, "real modules: %s" % (col.fails[0][1],)
     return False, "real modules: wiring as expected"
+
+
+# ====================================================================== sampler loops -> steps (C02 / C18)
+
+LOOPS = ["calling-loop", "calling-loop-nocache", "pedigree-loop", "pedigree-sweep"]
+
+
+def _np_shuffle_shim(mod, ctx, tag):
+    """mod.np whose random.shuffle applies a solver-chosen permutation (every permutation is explored)"""
+    base = orig(mod, "np")
+    n_calls = [0]
+
+    class R:
+        @staticmethod
+        def shuffle(a):
+            n = len(a)
+            perms = list(itertools.permutations(range(n)))
+            k = int(E.SymInt(E.fresh_int(ctx, "%s_perm%d" % (tag, n_calls[0]), 0, len(perms) - 1))) if n > 1 else 0
+            n_calls[0] += 1
+            vals = [a[i] for i in perms[k]]
+            for i, v in enumerate(vals):
+                a[i] = v
+
+        def __getattr__(self, k):
+            return getattr(base.random, k)
+
+    class S:
+        random = R()
+
+        def __getattr__(self, k):
+            return getattr(base, k)
+
+    mod.np = S()
+
+
+def run_loop(c, col):
+    which = c["loop"]
+    if E.load is _ENGINE_LOAD:
+        E.reset_modules()
+    E.cfg.concrete_ints = True
+
+    def body(ctx):
+        log = []
+        F = E.fresh_real(ctx, "F", 0, 1)
+        if which.startswith("calling-loop"):
+            cm = E.load("mchap.calling.mcmc")
+            haps = rnp.array([[0, 0], [0, 1], [1, 1]], dtype=rnp.int8)
+            reads = rnp.full((3, 2, 2), 0.25)
+            counts = rnp.array([2, 1, 3])
+            freqs = rnp.array([0.5, 0.25, 0.25])
+            init = rnp.array([0, 1, 2], dtype=rnp.int8)
+            k = [0]
+
+            def r_step(b):
+                k[0] += 1
+                g = b["genotype_alleles"]
+                g[0] = k[0] % 3
+                g[2] = (2 * k[0]) % 3
+                return 0.5 + k[0]
+
+            real = orig(cm, "compound_step")
+            cm.compound_step = rec_fn(real, r_step, log, "compound_step")
+            fn = orig(cm, "mcmc_sampler")
+            fn = getattr(fn, "py_func", fn)
+            gt, lt = fn(genotype_alleles=init, haplotypes=haps, reads=reads, read_counts=counts, inbreeding=E.SymReal(F), frequencies=freqs, n_steps=4,
+                        cache=not which.endswith("nocache"), step_type=1)
+            return F, log, dict(haps=haps, reads=reads, counts=counts, freqs=freqs, init=init, gt=gt, lt=lt)
+        pm = E.load("mchap.pedigree.mcmc")
+        haps = rnp.array([[0, 0], [0, 1], [1, 1]], dtype=rnp.int8)
+        x = dict(sample_ploidy=rnp.array([2, 2, 2, 2]), sample_parents=rnp.array([[-1, -1], [-1, -1], [0, 1], [0, 1]]), gamete_tau=rnp.ones((4, 2), dtype=int),
+                 gamete_lambda=rnp.zeros((4, 2)), gamete_error=rnp.full((4, 2), 0.01), sample_read_dists=rnp.full((4, 1, 2, 2), 0.25),
+                 sample_read_counts=rnp.ones((4, 1), dtype=int), haplotypes=haps, log_frequencies=rnp.log(rnp.array([0.5, 0.25, 0.25])))
+        init = rnp.array([[0, 1], [1, 2], [0, 2], [2, 2]], dtype=rnp.int16)
+        if which == "pedigree-loop":
+            k = [0]
+
+            def r_comp(b):
+                k[0] += 1
+                b["sample_genotypes"][0, 0] = k[0] % 3
+                b["sample_genotypes"][3, 1] = (k[0] + 1) % 3
+                return None
+
+            def r_swap(b):
+                b["sample_genotypes"][1, 0] = (b["sample_genotypes"][1, 0] + 1) % 3
+                return 0.5
+
+            rc, rs = orig(pm, "compound_step"), orig(pm, "pair_allele_swap_step")
+            pm.compound_step = rec_fn(rc, r_comp, log, "compound_step")
+            pm.pair_allele_swap_step = rec_fn(rs, r_swap, log, "pair_allele_swap_step")
+            fn = orig(pm, "mcmc_sampler")
+            fn = getattr(fn, "py_func", fn)
+            tr = fn(sample_genotypes=init, n_steps=3, annealing=0, step_type=1, swap_parental_alleles=True, **x)
+            return F, log, dict(x, init=init, tr=tr)
+        # pedigree-sweep: compound_step -> sample_step -> allele_step under every shuffle outcome
+        ra = orig(pm, "allele_step")
+        pm.allele_step = rec_fn(ra, lambda b: None, log, "allele_step")
+        ss = orig(pm, "sample_step")
+        pm.sample_step = getattr(ss, "py_func", ss)  # (on the real module: run the dispatcher's Python body so that the recorder is seen)
+        _np_shuffle_shim(pm, ctx, "sh")
+        x3 = dict(x)
+        for kk in ("sample_ploidy", "sample_parents", "gamete_tau", "gamete_lambda", "gamete_error", "sample_read_dists", "sample_read_counts"):
+            x3[kk] = x[kk][:3]
+        x3["sample_ploidy"] = rnp.array([1, 3, 2])
+        g3 = rnp.array([[0, -1, -1], [1, 2, 0], [0, 2, -1]], dtype=rnp.int16)
+        children = rnp.array([[2, -1], [2, -1], [-1, -1]])
+        scratch = {n_: rnp.zeros(3, dtype=rnp.int64) for n_ in ("dosage", "dosage_p", "dosage_q", "gamete_p", "gamete_q", "constraint_p", "constraint_q")}
+        fn = orig(pm, "compound_step")
+        fn = getattr(fn, "py_func", fn)
+        cache = {}
+        fn(sample_genotypes=g3, sample_children=children, llk_cache=cache, step_type=1, dosage_log_frequencies=rnp.zeros(3), **x3, **scratch)
+        return F, log, dict(x3, g3=g3, children=children, cache=cache)
+
+    site = {"calling": "mchap.calling.mcmc.mcmc_sampler", "pedigree": "mchap.pedigree.mcmc.mcmc_sampler"}[which.split("-")[0]]
+    if which == "pedigree-sweep":
+        site = "mchap.pedigree.mcmc.compound_step"
+    first = True
+    for pr in E.explore(body, stats=col.stats):
+        if pr.exc is not None:
+            col.fail(site, "exception", shape=dict(loop=which), witness=dict(exc=repr(pr.exc)), desc="raised %r" % (pr.exc,))
+            continue
+        col.path()
+        if first:
+            col.reachable(pr.ctx)
+            first = False
+        F, log, x = pr.value
+        err, claims = verify_loop(which, F, log, x, eqr=lambda a, b: E.real_term(a) == (b if z3.is_expr(b) else E.real_term(b)))
+        if err:
+            col.fail(site, "loop-wiring", shape=dict(loop=which), witness=dict(loop=which, why=err), desc=err, model=E.model_dict(E.prove(pr.ctx, False).model))
+        else:
+            col.check(pr.ctx, z3.And(claims) if claims else z3.BoolVal(True), site, "loop-wiring", shape=dict(loop=which), witness=dict(loop=which),
+                      desc={"calling-loop": "calling mcmc_sampler: one compound step per iteration with the sampler's own arguments and ONE cache; the trace records the state and llk after each step; the caller's initial genotype is not modified",
+                            "calling-loop-nocache": "calling mcmc_sampler with cache=False passes no cache",
+                            "pedigree-loop": "pedigree mcmc_sampler: one compound step then one allele swap per parental pair and iteration, same arrays and ONE cache; trace = sorted state after each iteration",
+                            "pedigree-sweep": "pedigree compound_step: every (sample, allele copy) exactly once per sweep for every shuffle outcome, with the sampler's arguments"}[which])
+
+
+def verify_loop(which, F, log, x, eqr):
+    claims = []
+    if which.startswith("calling-loop"):
+        calls = [b for n, b in log if n == "compound_step"]
+        if len(calls) != 4:
+            return "compound_step called %d times for n_steps=4" % len(calls), claims
+        caches = {id(b["llk_cache"]) for b in calls}
+        for b in calls:
+            if b["haplotypes"] is not x["haps"] or b["reads"] is not x["reads"] or b["read_counts"] is not x["counts"] or b["frequencies"] is not x["freqs"] or b["step_type"] != 1:
+                return "compound_step does not receive the sampler's haplotypes / reads / counts / frequencies / step_type", claims
+            claims.append(eqr(b["inbreeding"], F))
+            if which.endswith("nocache"):
+                if b["llk_cache"] is not None:
+                    return "cache=False but compound_step receives a cache", claims
+            elif not isinstance(b["llk_cache"], dict) or len(caches) != 1:
+                return "cache=True: compound_step must receive one and the same dict in every iteration", claims
+        if [int(v) for v in x["init"]] != [0, 1, 2]:
+            return "the caller's initial genotype array was modified: %r" % (x["init"].tolist(),), claims
+        want_g = [[k % 3, 1, (2 * k) % 3] for k in range(1, 5)]
+        if rnp.asarray(x["gt"]).tolist() != want_g or [float(v) for v in x["lt"]] != [0.5 + k for k in range(1, 5)]:
+            return "trace %r / %r is not the state / llk after each step (%r)" % (rnp.asarray(x["gt"]).tolist(), [float(v) for v in x["lt"]], want_g), claims
+        return None, claims
+    names = ("sample_ploidy", "sample_parents", "gamete_tau", "gamete_lambda", "gamete_error", "sample_read_dists", "sample_read_counts", "haplotypes", "log_frequencies")
+    if which == "pedigree-loop":
+        seq = [n for n, _ in log]
+        if seq != ["compound_step", "pair_allele_swap_step"] * 3:
+            return "per iteration expected one compound step and one swap for the single parental pair (0,1); got %s" % seq, claims
+        caches = {id(b["llk_cache"]) for _, b in log}
+        gens = {id(b["sample_genotypes"]) for _, b in log}
+        if len(caches) != 1 or len(gens) != 1:
+            return "steps of one run must share one cache and one state array", claims
+        for n, b in log:
+            for k in names:
+                if b[k] is not x[k]:
+                    return "%s: %s is not the sampler's array" % (n, k), claims
+            if n == "compound_step":
+                if b["step_type"] != 1 or rnp.asarray(b["sample_children"]).tolist()[:2] != [[2, 3], [2, 3]]:
+                    return "compound_step step_type / children matrix = %r / %r" % (b["step_type"], rnp.asarray(b["sample_children"]).tolist()), claims
+            else:
+                mb = rnp.asarray(b["markov_blanket"])
+                members = sorted(int(v) for v in (rnp.nonzero(mb)[0] if mb.dtype == bool else mb[mb >= 0]))
+                if (int(b["p"]), int(b["q"])) != (0, 1) or members != [0, 1, 2, 3]:
+                    return "swap step for pair (%s,%s) with blanket %r (expected pair (0,1) and its blanket: both parents and their children)" % (b["p"], b["q"], rnp.asarray(b["markov_blanket"]).tolist()), claims
+        if rnp.asarray(x["init"]).tolist() != [[0, 1], [1, 2], [0, 2], [2, 2]]:
+            return "the caller's initial genotypes were modified", claims
+        st = [[0, 1], [1, 2], [0, 2], [2, 2]]
+        want = []
+        for k in range(1, 4):
+            st[0][0] = k % 3
+            st[3][1] = (k + 1) % 3
+            st[1][0] = (st[1][0] + 1) % 3
+            want.append([sorted(r) for r in st])
+        if rnp.asarray(x["tr"]).tolist() != want:
+            return "trace %r is not the sorted state after each iteration %r" % (rnp.asarray(x["tr"]).tolist(), want), claims
+        return None, claims
+    calls = [b for n, b in log if n == "allele_step"]
+    visited = sorted((int(b["target_index"]), int(b["allele_index"])) for b in calls)
+    want = sorted((t, a) for t, P in enumerate([1, 3, 2]) for a in range(P))
+    if visited != want:
+        return "sweep visits (sample, copy) %r, expected every pair once: %r" % (visited, want), claims
+    for b in calls:
+        for k in ("sample_ploidy", "sample_parents", "gamete_tau", "gamete_lambda", "gamete_error", "sample_read_dists", "sample_read_counts", "haplotypes", "log_frequencies"):
+            if b[k] is not x[k]:
+                return "allele_step: %s is not the sweep's array" % k, claims
+        if b["sample_genotypes"] is not x["g3"] or b["sample_children"] is not x["children"] or b["llk_cache"] is not x["cache"] or b["step_type"] != 1:
+            return "allele_step does not receive the sweep's state / children / cache / step_type", claims
+    return None, claims
